@@ -101,7 +101,10 @@ def _own_meta(repo=None):
     if "ms" not in _OWN:
         from harness import core
         from translator import own_c12
-        _OWN["ms"] = own_c12.extract(repo or core.REPO)
+        try:
+            _OWN["ms"] = own_c12.extract(repo or core.REPO)
+        except Exception:  # noqa - the translator failed closed: `translate` has reported the
+            _OWN["ms"] = []    # broken tie; the cases fall back to the generic shapes
     return _OWN["ms"]
 
 
@@ -113,7 +116,7 @@ def translate(repo):
     from translator import own_c12, sites_c12
     out = dict(sites_c12.translate(repo))
     _OWN.pop("ms", None)
-    out.update(own_c12.translate(repo))
+    out.update(own_c12.translate(repo))      # raises Unsupported on any shape it does not know
     _own_meta(repo)
     return out
 
